@@ -115,8 +115,8 @@ def s_part(ck, tier, rng):
 
 
 def main(tier, seed):
-    ck = Check(PID, tier, seed, "Props.C07", ["Model/Master.v", "Oracle/MasterOracle.v", "Oracle/SimOracle.v",
-                                              "Proofs/MasterP.v", "Props/C07.v"])
+    ck = Check(PID, tier, seed, "Props.C07", ["Model/Master.v", "Model/WakeFlag.v", "Oracle/MasterOracle.v", "Oracle/SimOracle.v",
+                                              "Proofs/MasterP.v", "Proofs/WakeFlagP.v", "Props/C07.v"])
     ck.build_and_audit()
     rng = random.Random(seed)
     ck.rule = ("(a) real MasterScheduler driven message by message on virtual time with random component-playing scripts "
@@ -170,7 +170,9 @@ def replay(rp):
         ups = [(t, rt) for (cc, t, _), rt in zip(r["trace"], r["trace_rt"]) if cc == rp["device"]]
         print("updates of the device (sim time, real time):", ups)
         ok = r["inj"] and any(rt == r["inj"]["real"] for (t, rt) in ups[sum(1 for (cc, _, _) in r["trace"][:r["inj"]["pos"]] if cc == rp["device"]):])
-        return 0 if ok else 1
+        if r["errors"]:
+            print("a scheduler or component task died:", r["errors"][:2])
+        return 0 if ok and not r["errors"] else 1
     print("master script replay: events were generated adaptively; see the recorded events in the replay file")
     for e in rp["events"]:
         print("  ", e)
